@@ -11,7 +11,10 @@
     explicit `.panic` branch (see the `…Old` variants: the code before /repo 414a481).
   * The standard library (`x509.Parse*/Marshal*`, `elliptic.Marshal/Unmarshal/UnmarshalCompressed`,
     `ScalarBaseMult`, `rsa.PrivateKey.Precompute`, `pem`) is a PARAMETER: `structure Crypto` bundles the
-    functions with their assumed inverse laws as fields.  Nothing is an axiom.
+    functions with their assumed inverse laws as fields.  Nothing is an axiom.  The functions are total
+    (value or error) except `marshalPKCS8`, which may also panic: the real `x509.MarshalPKCS8PrivateKey`
+    does (`big.Int.FillBytes`) on an ecdsa key whose scalar does not fit the curve size, and the
+    accessors can hand it such a key.
   * Transport here is VALUE-LEVEL only: each big integer / byte string of the material is written and
     read back in the chosen encoding.  The structure-level transport (order and tagging of the fields,
     enumerations, the message framing) is the business of C01/C04 and is the identity on the
@@ -353,7 +356,9 @@ structure CryptoOps where
   parsePKCS1Pub : Bytes → Option RsaPub
   marshalPKCS1Pub : RsaPub → Bytes
   parsePKCS8 : Bytes → Option (PrivAny RsaPriv EcPriv)
-  marshalPKCS8 : PrivAny RsaPriv EcPriv → Option Bytes
+  /-- `x509.MarshalPKCS8PrivateKey`: a value, an error, or a Go panic (it panics — `big.Int.FillBytes` —
+      on an ecdsa key whose `D` does not fit the byte size of the curve order). -/
+  marshalPKCS8 : PrivAny RsaPriv EcPriv → Res Bytes
   parseSEC1 : Bytes → Option EcPriv
   marshalSEC1 : EcPriv → Option Bytes
   parsePKIX : Bytes → Option (PubAny RsaPub EcPub)
@@ -385,7 +390,7 @@ structure CryptoOps where
 structure Crypto extends CryptoOps where
   parsePKCS1Priv_marshal : ∀ k, parsePKCS1Priv (marshalPKCS1Priv k) = some k
   parsePKCS1Pub_marshal : ∀ k, parsePKCS1Pub (marshalPKCS1Pub k) = some k
-  parsePKCS8_marshal : ∀ k bs, marshalPKCS8 k = some bs → parsePKCS8 bs = some k
+  parsePKCS8_marshal : ∀ k bs, marshalPKCS8 k = .ok bs → parsePKCS8 bs = some k
   parseSEC1_marshal : ∀ k bs, marshalSEC1 k = some bs → parseSEC1 bs = some k
   parsePKIX_marshal : ∀ k bs, marshalPKIX k = some bs → parsePKIX bs = some k
   parseCert_raw : ∀ c, parseCert (certRaw c) = some c
@@ -707,8 +712,9 @@ def privPkcs8Pem (C : CryptoOps) (kb : KeyBlockV) : Res Bytes :=
   match privCrypto C kb with
   | .ok k =>
     match C.marshalPKCS8 k with
-    | none => .err .other
-    | some der => .ok (C.pem pemPrivateKey der)
+    | .ok der => .ok (C.pem pemPrivateKey der)
+    | .err e => .err e
+    | .panic m => .panic m                 -- inside the standard library
   | .err e => .err e
   | .panic m => .panic m
 
@@ -967,8 +973,9 @@ def registerRsaPriv (C : CryptoOps) (kf : Nat) (key : C.RsaPriv) : Res Obj :=
     if f = kfPKCS1 then .ok (rawKeyBytes true (C.marshalPKCS1Priv key) algRSA bitlen fPKCS1)
     else if f = kfPKCS8 then
       match C.marshalPKCS8 (.rsa key) with
-      | none => .err .other
-      | some der => .ok (rawKeyBytes true der algRSA bitlen fPKCS8)
+      | .ok der => .ok (rawKeyBytes true der algRSA bitlen fPKCS8)
+      | .err e => .err e
+      | .panic m => .panic m
     else if f = kfTransparent then
       match parts.primes with
       | p :: q :: _ =>                       -- key.Primes[0], key.Primes[1]
@@ -1007,8 +1014,9 @@ def registerEcPriv (C : CryptoOps) (kf : Nat) (ver : Nat × Nat) (key : C.EcPriv
       | some der => .ok (rawKeyBytes true der algECDSA bitlen fECPrivateKey)
     else if f = kfPKCS8 then
       match C.marshalPKCS8 (.ecdsa key) with
-      | none => .err .other
-      | some der => .ok (rawKeyBytes true der algECDSA bitlen fPKCS8)
+      | .ok der => .ok (rawKeyBytes true der algECDSA bitlen fPKCS8)
+      | .err e => .err e
+      | .panic m => .panic m
     else if f = kfTransparent then
       let t : EcPrivT := { curve := crv, d := C.ecPrivD key }
       if verGE13 ver then
@@ -1309,10 +1317,16 @@ def parsePKCS8 (bs : Bytes) : Option (PrivAny RsaPriv EcPriv) :=
   | [5] => some .other
   | _ => none
 
-def marshalPKCS8 : PrivAny RsaPriv EcPriv → Option Bytes
-  | .rsa k => some (3 :: serRsaPriv k)
-  | .ecdsa k => some (4 :: serEcPriv k)
-  | .other => some [5]
+/-- byte size of the order of the curve (P-224, P-256, P-384, P-521). -/
+def orderBytes (i : Fin 4) : Nat := if i.val = 0 then 28 else if i.val = 1 then 32 else if i.val = 2 then 48 else 66
+
+/-- like the real `MarshalPKCS8PrivateKey`, panics on an EC key whose scalar does not fit the curve size. -/
+def marshalPKCS8 : PrivAny RsaPriv EcPriv → Res Bytes
+  | .rsa k => .ok (3 :: serRsaPriv k)
+  | .ecdsa k =>
+    if k.d ≥ 256 ^ orderBytes k.crv then .panic "math/big: buffer too small to fit value"
+    else .ok (4 :: serEcPriv k)
+  | .other => .ok [5]
 
 def parsePKIX (bs : Bytes) : Option (PubAny RsaPub EcPub) :=
   match bs with
@@ -1359,7 +1373,7 @@ def ops : CryptoOps where
   rsaPubMk n _ := { n := n.toNat }
   ecPrivCurve k := curveCode k.crv
   ecPrivD k := k.d
-  ecPrivBuild c d := { crv := curveIx c, d := d.toNat }
+  ecPrivBuild c d := { crv := curveIx c, d := d.natAbs }
   ecPubCurve k := curveCode k.crv
   ecMarshal k := point 4 k
   ecUnmarshal c bs := unpoint 4 c bs
